@@ -17,7 +17,7 @@ import os
 ROOT = os.path.dirname(os.path.dirname(os.path.abspath(__file__)))
 CORPUS = os.path.join(ROOT, "harness", "corpus", "C09")
 THEOREMS = ["IstioModel.C09.Theorems", "IstioModel.C09.AuthnTheorems"]
-STREAMS = ("issue",)
+STREAMS = ("issue", "authn")
 
 
 def oracle(ctx, stream, case_lines, rep):
